@@ -15,11 +15,19 @@ H(e) == hist' = Append(hist, e)
 
 AllContribs(s) == {Contribution(x) : x \in OfSlot(sel, s)}
 
+\* the zero-signed requests / pairs as JSON-friendly sets
+HsOf(s, F) == {[v |-> r[1], sub |-> r[2], h |-> (IF F[r] = ZeroSig THEN 0 ELSE F[r]), z |-> (F[r] = ZeroSig)] : r \in DOMAIN F}
+PairSet(P) == {[v |-> p[1], sub |-> p[2]] : p \in P}
+
+\* The generator's guess of what the implementation answers where the specification leaves it open
+\* (only to keep generating stimuli; the verdict is taken from what the real code logged): a zero-signed
+\* request is not selected, a batch error leaves the slot without its next job, everything that may be
+\* submitted is submitted.
 SNext ==
     /\ Len(hist) <= ScenLen
     /\ \/ /\ Len(hist) <= SetupLen
           /\ \E v \in Members : \E m \in MemberSpace :
-                AddMember(v, m) /\ H([ev |-> "Member", v |-> v, idx |-> m.idx, acct |-> m.acct, zero |-> m.zero])
+                AddMember(v, m) /\ H([ev |-> "Member", v |-> v, idx |-> m.idx, acct |-> m.acct])
        \/ /\ Known # {}
           /\ \/ \E t \in Nows : Advance(t) /\ H([ev |-> "Advance", now |-> t])
              \/ /\ msgJobs \cup aggJobs # {}
@@ -27,11 +35,27 @@ SNext ==
                 /\ \E r \in Roots : NewHead(r) /\ H([ev |-> "Head", root |-> r])
              \/ \E e \in ScheduleEpochs : \E nc \in BOOLEAN :
                     Schedule(e, nc, prepJobs \cup Required([period |-> PeriodOf(e), at |-> now, nc |-> nc])) /\ H([ev |-> "Schedule", epoch |-> e, nc |-> nc])
-             \/ \E s \in prepJobs : \E F \in [Requests -> HVals] :
-                    FirePrepare(s, F) /\ H([ev |-> "FirePrepare", slot |-> s,
-                                            hs |-> {[v |-> r[1], sub |-> r[2], h |-> F[r]] : r \in Requests}])
-             \/ \E s \in msgJobs : FireMessage(s, OfSlot(sel, s) # {}) /\ H([ev |-> "FireMessage", slot |-> s])
-             \/ \E s \in aggJobs : FireAggregate(s, AllContribs(s)) /\ H([ev |-> "FireAggregate", slot |-> s])
+             \/ \E s \in {x \in prepJobs : CanPrepare(x)} :
+                    \/ \E F \in [Requests -> HVals \cup Opt("sel", {ZeroSig})] :
+                          FirePrepare(s, F, FALSE, {}, TRUE)
+                          /\ H([ev |-> "FirePrepare", slot |-> s, hs |-> HsOf(s, F), err |-> FALSE])
+                    \/ /\ "selerr" \in FaultKinds
+                       /\ FirePrepare(s, <<>>, TRUE, {}, FALSE)
+                       /\ H([ev |-> "FirePrepare", slot |-> s, hs |-> {}, err |-> TRUE])
+             \/ \E s \in msgJobs :
+                    \/ \E Z \in {{}} \cup Opt("root", SUBSET WithAccount) :
+                          FireMessage(s, Z, FALSE, OfSlot(sel, s) # {} /\ Z # WithAccount)
+                          /\ H([ev |-> "FireMessage", slot |-> s, zv |-> Z, err |-> FALSE])
+                    \/ /\ "rooterr" \in FaultKinds
+                       /\ FireMessage(s, {}, TRUE, FALSE)
+                       /\ H([ev |-> "FireMessage", slot |-> s, zv |-> {}, err |-> TRUE])
+             \/ \E s \in aggJobs :
+                    \/ \E ZC \in {{}} \cup Opt("cp", SUBSET PairsOf(s)) :
+                          FireAggregate(s, ZC, FALSE, AllContribs(s))
+                          /\ H([ev |-> "FireAggregate", slot |-> s, zp |-> PairSet(ZC), err |-> FALSE])
+                    \/ /\ "cperr" \in FaultKinds
+                       /\ FireAggregate(s, {}, TRUE, {})
+                       /\ H([ev |-> "FireAggregate", slot |-> s, zp |-> {}, err |-> TRUE])
 
 SSpec == SInit /\ [][SNext]_svars
 
